@@ -176,7 +176,7 @@ def run(tier: str, replay: str | None = None):
     cfgs = configs(tier)
     if replay:
         r = json.loads(Path(replay).read_text())
-        inp = r["input"]
+        inp = r.get("input") or {}
         if "source" in inp:
             programs["replay"] = inp["source"]
             feats["replay"] = ["replay"]
